@@ -190,7 +190,8 @@ func opVersionToSpan(typ tokType, op string, lo *Version) (span, error) {
 
 	case tokLess:
 		// Special horrible cases.
-		if lo.all(wildcard) || lo.all(0) {
+		// Nothing is below 0.0.0, but its prereleases are below one another.
+		if lo.all(wildcard) || (lo.all(0) && len(lo.pre) == 0) {
 			return span{rank: empty}, nil
 		}
 		for i, val := range hi.num {
